@@ -3,6 +3,9 @@ package sim
 import (
 	"encoding/hex"
 	"fmt"
+	"math/big"
+
+	sdk "github.com/cosmos/cosmos-sdk/types"
 
 	"github.com/circlefin/noble-cctp/x/cctp/keeper"
 	ct "github.com/circlefin/noble-cctp/x/cctp/types"
@@ -201,6 +204,88 @@ func c01Tx(rc *RunCtx, nHist, nTx int) {
 	}
 }
 
+// c01Flows: every attestation operator (plus over- and under-signed honest attestations) presented through each
+// of the three consuming transaction types, under every threshold the std attester set allows.
+func c01Flows(rc *RunCtx, rounds int) {
+	e, err := NewProdEngine(rc, false, nil, nil)
+	if err != nil {
+		rc.Cov.Inconclusive(err.Error())
+		return
+	}
+	g := NewGen(e)
+	p := &ProdGen{E: e, G: g}
+	r := rc.Rand
+	ops := append(append([]string(nil), AttOps...), "oversigned+1", "oversigned-all", "undersigned")
+	nonce := uint64(7_000_000 + rc.Shard*100_000)
+	for round := 0; round < rounds; round++ {
+		n := len(e.EnabledPoolKeys())
+		for t := 1; t <= n; t++ {
+			e.Exec(Tx{Msgs: msgs1(&ct.MsgUpdateSignatureThreshold{From: e.M.AM, Amount: uint32(t)}), Note: "c01 flows threshold"})
+			if int(e.M.Threshold) != t {
+				continue
+			}
+			// fresh originals for the two replace flows
+			e.Exec(Tx{Msgs: msgs1(p.ValidSend(round%2 == 0)), Note: "c01 flows original send"})
+			e.Exec(Tx{Msgs: msgs1(p.ValidDeposit(round%2 == 1, 0)), Note: "c01 flows original deposit"})
+			for _, op := range ops {
+				for flow := 0; flow < 3; flow++ {
+					var raw []byte
+					var mk func(att []byte) sdk.Msg
+					switch flow {
+					case 0:
+						nonce++
+						raw = StdInbound(nonce, r.Intn(NAccounts), big.NewInt(int64(1+r.Intn(1000)))).Bytes()
+						mk = func(att []byte) sdk.Msg {
+							return &ct.MsgReceiveMessage{From: Acct(UserIx), Message: raw, Attestation: att}
+						}
+					case 1:
+						em := p.emitted(false)
+						if em == nil {
+							continue
+						}
+						raw = em.Original
+						mk = func(att []byte) sdk.Msg {
+							return &ct.MsgReplaceMessage{From: Bech(em.Sender[12:32]), OriginalMessage: raw, OriginalAttestation: att, NewMessageBody: []byte("c01"), NewDestinationCaller: make([]byte, 32)}
+						}
+					case 2:
+						em := p.emitted(true)
+						if em == nil || em.Depositor == "" {
+							continue
+						}
+						raw = em.Original
+						mk = func(att []byte) sdk.Msg {
+							return &ct.MsgReplaceDepositForBurn{From: em.Depositor, OriginalMessage: raw, OriginalAttestation: att, NewDestinationCaller: make([]byte, 32), NewMintRecipient: Structured32(0x42)}
+						}
+					}
+					sorted := ref.SortByAddr(e.EnabledPoolKeys())
+					var att []byte
+					switch op {
+					case "oversigned+1":
+						if t+1 > len(sorted) {
+							continue
+						}
+						att = ref.HonestAttestation(raw, sorted[:t+1], r.Intn(3))
+					case "oversigned-all":
+						if t+1 > len(sorted) {
+							continue
+						}
+						att = ref.HonestAttestation(raw, sorted, r.Intn(3))
+					case "undersigned":
+						if t < 2 {
+							continue
+						}
+						att = ref.HonestAttestation(raw, sorted[:t-1], r.Intn(3))
+					default:
+						att = MutateAt(r, op, r.Intn(t), raw, sorted[:t], AttesterPool[9])
+					}
+					rep := e.Exec(Tx{Msgs: msgs1(mk(att)), Note: "c01 flows " + op})
+					rc.Cov.Cell("C01_flow_op", fmt.Sprintf("%s/%s/t=%d/%s", []string{"receive", "replace-message", "replace-deposit"}[flow], op, t, okWord(rep.OK)))
+				}
+			}
+		}
+	}
+}
+
 func init() {
 	Register(&Check{
 		ID: "C01", Level: "exploration",
@@ -218,6 +303,7 @@ func init() {
 			}
 			c01Direct(rc, rc.Pick(8, 64), false)
 			c01Tx(rc, rc.Pick(1, 6), rc.Pick(400, 1500))
+			c01Flows(rc, rc.Pick(1, 4))
 			ProbeHistory(rc, rc.Pick(240, 900), false)
 		},
 		Floors: func(c *Cov, tier string) []string {
